@@ -12,6 +12,8 @@ CONFIGS = {
     "alloc-input-2msg": dict(modes=("allocate", "input"), nmsg=(2, 2)),
     "set-set-deferred-dup": dict(modes=("set", "set"), nmsg=(2, 2), delegated=(False, False), adversary=("dup",)),
     "set-set-lossy": dict(modes=("set", "set"), nmsg=(2, 2), eager=False),
+    "set-set-3msg-burst-dup": dict(modes=("set", "set"), nmsg=(3, 3), adversary=("dup",), canon="burst"),
+    "alloc-set-3msg-burst-dup": dict(modes=("allocate", "set"), nmsg=(3, 2), adversary=("dup",), canon="burst"),
 }
 
 
